@@ -42,17 +42,19 @@ Shapes == <<
   [s |-> "[!g.=x]",      nm |-> "g",        val |-> "x",    vt |-> "raw",  b |-> TRUE,  im |-> TRUE ],
   [s |-> "[h.=y]",       nm |-> "h",        val |-> "y",    vt |-> "raw",  b |-> TRUE,  im |-> FALSE],
   [s |-> "[k=1 t=z]",    nm |-> "k",        val |-> "1",    vt |-> "raw",  b |-> FALSE, im |-> FALSE],
-  [s |-> "[u k=\"2\"]",   nm |-> "u",        val |-> NONE,   vt |-> "raw",  b |-> FALSE, im |-> FALSE] >>
+  [s |-> "[u k=\"2\"]",   nm |-> "u",        val |-> NONE,   vt |-> "raw",  b |-> FALSE, im |-> FALSE],
+  [s |-> "[for.]",       nm |-> "for",      val |-> NONE,   vt |-> "raw",  b |-> TRUE,  im |-> FALSE] >>
 (* a set may hold a second attribute: index of the shape -> the second attribute of that set *)
 Second(k) == IF k = 26 THEN <<[s |-> "", nm |-> "t", val |-> "z", vt |-> "raw", b |-> FALSE, im |-> FALSE]>>
              ELSE IF k = 27 THEN <<[s |-> "", nm |-> "k", val |-> "2", vt |-> "dq", b |-> FALSE, im |-> FALSE]>>
              ELSE <<>>
 
-VARIABLES abbr, mentions, merged, reverse
-vars == <<abbr, mentions, merged, reverse>>
+VARIABLES abbr, mentions, merged, reverse, rep
+vars == <<abbr, mentions, merged, reverse, rep>>
+(* rep: number of copies - the element may finally be written with the repeater *2; every copy carries the same attributes *)
 (* merged: sequence of [nm, val, vt, b, im] - the node's attribute list after the mentions seen so far *)
 
-Init == abbr = "x" /\ mentions = <<>> /\ merged = <<>> /\ reverse \in BOOLEAN
+Init == abbr = "x" /\ mentions = <<>> /\ merged = <<>> /\ reverse \in BOOLEAN /\ rep = 1
 
 Find(lst, nm) == IF \E i \in 1..Len(lst) : lst[i].nm = nm THEN CHOOSE i \in 1..Len(lst) : lst[i].nm = nm ELSE 0
 JoinVal(a, b) == IF a = NONE THEN b ELSE IF b = NONE THEN a ELSE IF a = "" THEN b ELSE a \o " " \o b
@@ -64,13 +66,14 @@ MergeStep(lst, m) ==
                      ![i].im = @ \/ m.im, ![i].b = @ \/ m.b,
                      ![i].vt = IF @ = "expr" THEN @ ELSE m.vt]
 
-Mention == /\ Len(mentions) < MaxMentions
+Mention == /\ Len(mentions) < MaxMentions /\ rep = 1
            /\ \E k \in ShapeIdx :
                 /\ abbr' = abbr \o Shapes[k].s
                 /\ mentions' = Append(mentions, k)
                 /\ merged' = IF Second(k) = <<>> THEN MergeStep(merged, Shapes[k]) ELSE MergeStep(MergeStep(merged, Shapes[k]), Second(k)[1])
-           /\ UNCHANGED reverse
-Next == Mention
+           /\ UNCHANGED <<reverse, rep>>
+Repeat2 == /\ rep = 1 /\ Len(mentions) >= 1 /\ rep' = 2 /\ abbr' = abbr \o "*2" /\ UNCHANGED <<mentions, merged, reverse>>
+Next == Mention \/ Repeat2
 Spec == Init /\ [][Next]_vars
 
 (* --------------------------------------------------------------- contract *)
@@ -130,13 +133,15 @@ Rows == << [syntax |-> "html", quotes |-> "double", upper |-> FALSE, compact |->
            [syntax |-> "xml",  quotes |-> "double", upper |-> FALSE, compact |-> TRUE,  style |-> "xml"],
            [syntax |-> "jsx",  quotes |-> "double", upper |-> FALSE, compact |-> FALSE, style |-> "xhtml"],
            [syntax |-> "vue",  quotes |-> "single", upper |-> FALSE, compact |-> TRUE,  style |-> "xhtml"],
-           [syntax |-> "jsx",  quotes |-> "single", upper |-> TRUE,  compact |-> TRUE,  style |-> "html"] >>
+           [syntax |-> "jsx",  quotes |-> "single", upper |-> TRUE,  compact |-> TRUE,  style |-> "html"],
+           [syntax |-> "html", quotes |-> "double", upper |-> TRUE,  compact |-> FALSE, style |-> "xhtml"],
+           [syntax |-> "jsx",  quotes |-> "double", upper |-> TRUE,  compact |-> FALSE, style |-> "xml"] >>
 
 \* the printer never prints a name twice and keeps the merged order
 EmitInv == \A r \in 1..Len(Rows) :
               LET e == Emit(merged, Rows[r]) IN \A i, j \in 1..Len(e) : e[i].n = e[j].n => i = j
 
 Dump == Len(mentions) >= 1 =>
-          PrintT(<<"VEC", ToJson([abbr |-> abbr, reverse |-> reverse, silent |-> Silent,
+          PrintT(<<"VEC", ToJson([abbr |-> abbr, reverse |-> reverse, silent |-> Silent, rep |-> rep,
                                    rows |-> [r \in 1..Len(Rows) |-> [row |-> Rows[r], attrs |-> Emit(merged, Rows[r])]]])>>)
 =============================================================================
